@@ -108,6 +108,7 @@ type Op struct {
 	Var     int    `json:"var,omitempty"`     // compile: binary variant (>0)
 	NoNotif bool   `json:"nonotif,omitempty"` // inst/hostinst: no CloseNotifier in the context
 	Y       int    `json:"y,omitempty"`       // concurrent: yield spec before the operation
+	Sync    int    `json:"sync,omitempty"`    // concurrent: rendezvous number (0 none)
 	ND      int    `json:"nd,omitempty"`      // inst/hostinst: delay spec inside the close notifier
 }
 
@@ -833,10 +834,12 @@ func hostAfterCloseCase(engine, kind string) SeqCase {
 // process; the exclusions are active only while the findings reproduce.
 func probeKnown() {
 	probeOnce.Do(func() {
-		exclDupTaint = runSeqCase(dupCase) != ""
+		// the finding's signature: the duplicate is rejected (steps 0,1 as specified) and the
+		// lookup of step 2 then misses the open owner
+		exclDupTaint = strings.HasPrefix(runSeqCase(dupCase), "step #2 ")
 		for _, eng := range wz.Engines {
 			for _, k := range []string{kHostCompile, kHostInst} {
-				if runSeqCase(hostAfterCloseCase(eng, k)) != "" {
+				if strings.HasPrefix(runSeqCase(hostAfterCloseCase(eng, k)), "step #1 ") {
 					exclHostAfterClose = true
 				}
 			}
@@ -1039,10 +1042,13 @@ func TestKnownFindings(t *testing.T) {
 	if sh, _ := evid.Shard(); sh != 0 || os.Getenv("VERIF_RACE") != "" {
 		t.Skip()
 	}
-	if msg := runSeqCase(dupCase); msg != "" {
+	if msg := runSeqCase(dupCase); strings.HasPrefix(msg, "step #2 ") {
 		if evid.Finding("C10-failed-dup-deletes-name", "known-failed-dup-deletes-name", dupCase, "%s", msg) {
 			t.Fail()
 		}
+	} else if msg != "" { // fails, but not in the way of the finding
+		evid.Violation("fixed-input-dup", dupCase, "%s", msg)
+		t.Fail()
 	} else {
 		evid.Note("C10-failed-dup-deletes-name no longer reproduces on its fixed input")
 	}
@@ -1050,11 +1056,15 @@ func TestKnownFindings(t *testing.T) {
 	for _, eng := range wz.Engines {
 		for _, k := range []string{kHostCompile, kHostInst} {
 			c := hostAfterCloseCase(eng, k)
-			if msg := runSeqCase(c); msg != "" && !seen {
+			msg := runSeqCase(c)
+			if strings.HasPrefix(msg, "step #1 ") && !seen {
 				seen = true
 				if evid.Finding("C10-hostmodule-after-close", "known-hostmodule-after-close", c, "%s", msg) {
 					t.Fail()
 				}
+			} else if msg != "" && !strings.HasPrefix(msg, "step #1 ") {
+				evid.Violation("fixed-input-host-after-close", c, "%s", msg)
+				t.Fail()
 			}
 		}
 	}
